@@ -37,7 +37,8 @@ class Cellspec:
 
     def __init__(self, kind, n_in=1, n_out=1):
         self.kind, self.n_in, self.n_out = kind, n_in, n_out
-        if kind == "dense":
+        if kind in ("dense", "densemd"):
+            # densemd: the same cell with multi-dimensional population shapes (1, n_in) -> (n_out, 1)
             self.F, self.N, self.L, self.in_bits, self.out_bits = n_out, n_in, 1, n_in, n_out
             self.wshape = (n_out, n_in)
         elif kind == "direct":
@@ -67,6 +68,9 @@ class Cellspec:
         if self.kind == "dense":
             conn = LinearDense((self.n_in,), (self.n_out,), dt, **kw)
             nshape = (self.n_out,)
+        elif self.kind == "densemd":
+            conn = LinearDense((1, self.n_in), (self.n_out, 1), dt, **kw)
+            nshape = (self.n_out, 1)
         elif self.kind == "direct":
             conn = LinearDirect((self.n_in,), dt, **kw)
             nshape = (self.n_in,)
@@ -87,12 +91,16 @@ class Cellspec:
         x = torch.tensor(bits, dtype=torch.bool)
         if self.kind in ("conv", "conv2c"):
             return x.reshape(-1, self.C, 1, self.W)
+        if self.kind == "densemd":
+            return x.reshape(-1, 1, self.n_in)
         return x
 
     def post_tensor(self, bits):
         x = torch.tensor(bits, dtype=torch.bool)
         if self.kind in ("conv", "conv2c"):
             return x.reshape(-1, self.n_out, 1, self.L)
+        if self.kind == "densemd":
+            return x.reshape(-1, self.n_out, 1)
         return x
 
     def pre_syn(self, bits):
